@@ -8,7 +8,11 @@ import XPathV.Theorems.C11
 #print axioms XPathV.Theorems.C11.key_injective
 #print axioms XPathV.Theorems.C11.rendered_key_from_struct
 #print axioms XPathV.Theorems.C11.C11_main
+#print axioms XPathV.Theorems.C11.C11_main_unconditional
 #print axioms XPathV.Theorems.C11.C11_nary
+#print axioms XPathV.Theorems.C11.C11_nary_unconditional
 #print axioms XPathV.Theorems.C11.C11_sequence
+#print axioms XPathV.Theorems.C11.C11_sequence_unconditional
 #print axioms XPathV.Theorems.C11.seqLoop_is_seqForm
 #print axioms XPathV.Theorems.C11.identity_key_recipe_ok
+#print axioms XPathV.Theorems.C11.identity_is_the_key_string
